@@ -3,6 +3,7 @@ package checks
 
 import (
 	_ "verif/h/checks/c01"
+	_ "verif/h/checks/c02"
 	_ "verif/h/checks/c10"
 	_ "verif/h/checks/c16"
 	_ "verif/h/checks/c17"
